@@ -1,5 +1,6 @@
 import PRV.Driver.C19
 import PRV.Driver.C10
+import PRV.Driver.C20
 
 open PRV.Driver
 
@@ -9,4 +10,5 @@ def main (args : List String) : IO UInt32 := do
   | ["spec", "c19"] => run (C19.machine true); return 0
   | ["model", "c10"] => run C10.machine; return 0
   | ["monitor", "c10"] => runMonitor C10.monitor; return 0
+  | ["monitor", "c20"] => runMonitor C20.monitor; return 0
   | _ => IO.eprintln "usage: prvdrv (model|spec) <property>"; return 2
